@@ -12,26 +12,25 @@ import (
 
 func main() {
 	ctx := context.Background()
-	n, err := vnode.NewMem(ctx)
-	if err != nil {
-		panic(err)
-	}
-	defer n.Close()
-	_, err = n.DB.AddSchema(ctx, `type T { name: String
- onums: [Int]
- ostrs: [String]
- nums: [Int!] }`)
-	if err != nil {
-		panic(err)
-	}
-	col, _ := n.DB.GetCollectionByName(ctx, "T")
-	for _, js := range []string{`{"name": "a", "onums": [1, null, 3]}`, `{"name": "a", "onums": [4, 5, 6]}`, `{"name": "a", "onums": [7]}`, `{"name": "a", "ostrs": ["x", null]}`, `{"name": "a", "ostrs": ["y", "z"]}`, `{"name": "a", "nums": [1, 2]}`, `{"name": "a", "nums": [3, 4]}`} {
-		d, err := client.NewDocFromJSON([]byte(js), col.Definition())
+	for k := 0; k < 6; k++ {
+		n, err := vnode.NewMem(ctx)
 		if err != nil {
-			fmt.Println(js, "ERR", err)
-			continue
+			panic(err)
 		}
-		b, _ := d.Bytes()
-		fmt.Printf("%s -> %s bytes=%x create=%v\n", js, d.ID(), b, col.Create(ctx, d))
+		_, err = n.DB.AddSchema(ctx, `type G { a: String
+ b: String }`)
+		if err != nil {
+			panic(err)
+		}
+		col, _ := n.DB.GetCollectionByName(ctx, "G")
+		for _, js := range []string{fmt.Sprintf(`{"a": "x_%d_y", "b": "z"}`, k), fmt.Sprintf(`{"a": "x", "b": "y_%d_z"}`, k)} {
+			d, _ := client.NewDocFromJSON([]byte(js), col.Definition())
+			if err := col.Create(ctx, d); err != nil {
+				panic(err)
+			}
+		}
+		r := n.DB.ExecRequest(ctx, `query { G(groupBy: [a, b]) { a b _count(_group: {}) } }`)
+		fmt.Println(k, r.GQL.Data, r.GQL.Errors)
+		n.Close()
 	}
 }
